@@ -110,6 +110,7 @@ func load(dir, goarch string) (*Prog, error) {
 	}
 	pr.normalizeAST()
 	pr.resolveRoles()
+	pr.computeReachTags()
 	if pr.NFuncs < 150 {
 		return nil, fmt.Errorf("load %s: only %d functions found (expected the whole library)", dir, pr.NFuncs)
 	}
